@@ -200,15 +200,27 @@ class Executor:
         for h in st.pc:
             known |= anchors(h)
         known |= anchors(goal)
-        # a fresh constant that is defined from constants of the path (e.g.
-        # the key list behind a values() view) belongs to the path as well
-        grown = True
-        while grown:
-            grown = False
-            for c, src in self.defined.items():
-                if c not in known and src <= known:
-                    known.add(c); grown = True
-        return [a for a in self.axioms if anchors(a) <= known]
+        # results of slices / concatenations / comprehensions / set and key
+        # views are *derived* constants: an axiom about a derived constant
+        # belongs to the path if that constant (or another derived constant of
+        # the same axiom) is on the path and everything else it mentions is
+        pending = [(a, anchors(a)) for a in self.axioms]
+        out = []
+        progress = True
+        while progress:
+            progress = False
+            rest = []
+            for a, an in pending:
+                der = {c for c in an if c.split('!')[0] in _DERIVED}
+                if (an - der) <= known and (not der or der & known):
+                    out.append(a)
+                    if not der <= known:
+                        known |= der
+                    progress = True
+                else:
+                    rest.append((a, an))
+            pending = rest
+        return out
 
     def fail(self, st, cond, exc):
         '''python raises `exc` when `cond`; afterwards not cond is assumed'''
@@ -795,6 +807,9 @@ class Executor:
             return self.list_concat(a, b, st)
         if isinstance(op, ast.Mult) and isinstance(a, PyTuple) and b.has_py():
             return PyTuple(a.items * b.py, a.is_list)
+        if isinstance(op, ast.Mult) and isinstance(a, PyTuple) and a.is_list \
+           and len(a.items) == 1 and b.ty in (TInt,):
+            return C.RepVal(a.items[0], b.term)
         a, b = self.num(st, a), self.num(st, b)
         real = (a.ty == TReal or b.ty == TReal)
         if isinstance(op, ast.Div):
@@ -1066,9 +1081,17 @@ class Executor:
             raise OutsideSubset('nested comprehension')
         gen = node.generators[0]
         src = self.ev(gen.iter, st)
+        enum_start = None
+        from .calls import EnumVal, KeysView
+        if isinstance(src, EnumVal):
+            enum_start, src = src.start, src.seq
+        if isinstance(src, KeysView):
+            src = src.as_list(self, st)
         if isinstance(src, PyDict):
             src = PyTuple([lift(k) for k in src.items], True)
         if isinstance(src, PyTuple):
+            if enum_start is not None:
+                raise OutsideSubset('enumerate over literal in comprehension')
             out = []
             for it in src.items:
                 sub = st.fork()
@@ -1093,8 +1116,10 @@ class Executor:
         i   = z3.Int(C.fresh_name('ci'))
         sub = st.fork()
         sub.guards = list(st.guards) + [0 <= i, i < ty.len(src.term)]
-        self.bind_target(gen.target, Val(ty.elem, z3.Select(ty.arr(src.term), i)),
-                         sub)
+        elemv = Val(ty.elem, z3.Select(ty.arr(src.term), i))
+        if enum_start is not None:
+            elemv = PyTuple([Val(TInt, enum_start + i), elemv])
+        self.bind_target(gen.target, elemv, sub)
         sm = self.specmode
         # element expression is evaluated for an arbitrary index; failure
         # conditions inside are raised for "some index" soundly via guards
@@ -1135,6 +1160,8 @@ class Executor:
         decl = self.spec.get('comps', {}).get(node.lineno - self.fsrc.lines[0])
         if decl is not None:
             return decl
+        if isinstance(getattr(self, '_expect', None), TList):
+            return self._expect
         if elt.ty in (TNone, TPy):
             raise OutsideSubset('comprehension element type unknown '
                                 '(declare comps={rel_line: T.List(..)})')
@@ -1365,7 +1392,14 @@ class Executor:
                     alias = Ref(p[0], p[1])
                 val = v
         if val is None:
-            val = self.ev(node.value, st)
+            # a declared local type guides comprehensions / displays on the rhs
+            self._expect = None
+            if len(node.targets) == 1 and isinstance(node.targets[0], ast.Name):
+                self._expect = self.local_type(node.targets[0].id)
+            try:
+                val = self.ev(node.value, st)
+            finally:
+                self._expect = None
         for tgt in node.targets:
             self.assign(tgt, val, st, alias)
         return [('next', st, None)]
@@ -1714,6 +1748,9 @@ def _has_list(ty):
     if isinstance(ty, TTuple): return any(_has_list(t) for t in ty.elems)
     return False
 
+
+_DERIVED = {'slice', 'cat', 'comp', 'set', 'setupd', 'sorted', 'keys', 'values',
+            'items', 'removed', 'bulk', 'Y'}
 
 _an_cache = dict()
 
